@@ -464,46 +464,78 @@ func c02Sync(c *Ctx) {
 func c02Order(c *Ctx) {
 	if fn := c.mustFn("IndexFromFile"); fn != nil {
 		// appends to index.Chunks: value received from w.results, inside the range over worker
+		// (in IndexFromFile itself or in a new helper that collects the list and hands it back)
+		fam := fnsDeep(fn)
 		n := 0
 		okAll := true
-		instrs(fn, func(_ *ssa.BasicBlock, _ int, ins ssa.Instruction) {
-			call, ok := ins.(*ssa.Call)
-			if !ok || callee(call) != "builtin:append" || !hasOrigin(call.Call.Args[0], func(o string) bool { return o == "field:Index.Chunks" }) {
-				return
-			}
-			n++
-			// the appended element comes from a receive on pChunker.results
-			el := call.Call.Args[1]
-			fromBucket := false
-			if sl, ok := el.(*ssa.Slice); ok {
-				if al, ok := sl.X.(*ssa.Alloc); ok {
-					for _, ref := range *al.Referrers() {
-						if ia, ok := ref.(*ssa.IndexAddr); ok {
-							for _, r2 := range *ia.Referrers() {
-								if st, ok := r2.(*ssa.Store); ok && hasOrigin(st.Val, func(o string) bool { return strings.Contains(o, "field:pChunker.results") }) {
-									fromBucket = true
+		for _, g := range fam {
+			instrs(g, func(_ *ssa.BasicBlock, _ int, ins ssa.Instruction) {
+				call, ok := ins.(*ssa.Call)
+				if !ok || callee(call) != "builtin:append" || ins.Parent() != g {
+					return
+				}
+				// the appended element comes from a receive on pChunker.results
+				el := call.Call.Args[1]
+				fromBucket := false
+				if sl, ok := el.(*ssa.Slice); ok {
+					if al, ok := sl.X.(*ssa.Alloc); ok {
+						for _, ref := range *al.Referrers() {
+							if ia, ok := ref.(*ssa.IndexAddr); ok {
+								for _, r2 := range *ia.Referrers() {
+									if st, ok := r2.(*ssa.Store); ok && hasOrigin(st.Val, func(o string) bool { return strings.Contains(o, "field:pChunker.results") }) {
+										fromBucket = true
+									}
 								}
 							}
 						}
 					}
 				}
-			}
-			if !fromBucket {
-				okAll = false
-			}
-		})
+				direct := hasOrigin(call.Call.Args[0], func(o string) bool { return o == "field:Index.Chunks" })
+				if !direct && !(g != fn && fromBucket) {
+					return // some other list
+				}
+				n++
+				if !fromBucket {
+					okAll = false
+				}
+				if !direct {
+					// the helper's list must be what IndexFromFile puts into the index
+					stored := false
+					instrs(fn, func(_ *ssa.BasicBlock, _ int, i2 ssa.Instruction) {
+						if st, ok := i2.(*ssa.Store); ok {
+							if fa, ok := st.Addr.(*ssa.FieldAddr); ok && fieldOf(fa) == "Index.Chunks" {
+								for _, l := range leaves(st.Val) {
+									if l == ssa.Value(call) {
+										stored = true
+									}
+								}
+								if hasOrigin(st.Val, func(o string) bool { return strings.HasPrefix(o, "call:") && strings.Contains(o, g.Name()) }) {
+									stored = true
+								}
+							}
+						}
+					})
+					if !stored {
+						okAll = false
+					}
+				}
+			})
+		}
 		c.verdict(n == 1 && okAll, "IndexFromFile:concatenate-buckets", fn.Pos(), "the index is the concatenation of the workers' buckets", "index.Chunks is not built by draining the workers' buckets")
 		// the outer loop ranges over the worker slice in order and leaves on eof
-		hdr, _, _ := loopOverLen(fn, func(os []string) bool { return contains(os, "makeslice") || contains(os, "alloc:") })
+		var blocks []*ssa.BasicBlock
+		for _, g := range fam {
+			blocks = append(blocks, g.Blocks...)
+		}
 		eofBreak := false
-		for _, b := range fn.Blocks {
+		for _, b := range blocks {
 			iff := lastIf(b)
 			if iff != nil && onlyOrigins(stripNot(iff.Cond), func(o string) bool { return o == "field:pChunker.eof" }) {
 				eofBreak = true
 			}
 		}
 		errChecked := false
-		for _, b := range fn.Blocks {
+		for _, b := range blocks {
 			iff := lastIf(b)
 			if iff == nil {
 				continue
@@ -513,7 +545,6 @@ func c02Order(c *Ctx) {
 				errChecked = true
 			}
 		}
-		_ = hdr
 		c.verdict(eofBreak && errChecked, "IndexFromFile:stop-at-eof-worker", fn.Pos(), "after each worker its error is checked and the loop stops at the first worker that reached EOF", "the main loop does not check the worker's error / stop at the worker that reached EOF: chunks of later (overlapping) workers would be appended again")
 	}
 	if fn := c.mustFn("ChunkStream"); fn != nil {
